@@ -67,7 +67,8 @@ extern "C" ssize_t sendto(int fd, const void *buf, size_t len, int flags, const 
     {
       E.injected.fetch_add(1, std::memory_order_relaxed);
       uint64_t k;
-      if (to && tolen >= sizeof(sockaddr_in)) { auto *a = (const sockaddr_in *)to; k = (uint64_t(a->sin_addr.s_addr) << 16) | a->sin_port; E.listenerInjected++; }
+      if (to && tolen >= sizeof(sockaddr_in6) && to->sa_family == AF_INET6) { auto *a = (const sockaddr_in6 *)to; k = vf::fnv(&a->sin6_addr, sizeof a->sin6_addr, a->sin6_port); E.listenerInjected++; }
+      else if (to && tolen >= sizeof(sockaddr_in)) { auto *a = (const sockaddr_in *)to; k = (uint64_t(a->sin_addr.s_addr) << 16) | a->sin_port; E.listenerInjected++; }
       else { k = 0x8000000000000000ull | uint64_t(fd); E.clientInjected++; }
       {
         std::lock_guard<std::mutex> g(E.m);
@@ -85,11 +86,43 @@ extern "C" ssize_t sendto(int fd, const void *buf, size_t len, int flags, const 
 extern "C" ssize_t send(int fd, const void *buf, size_t len, int flags) { return sendto(fd, buf, len, flags, nullptr, 0); }
 
 // ------------------------------------------------------------------------------ helpers
-static std::string addrStr(const sockaddr_in &a)
+struct SockAddr // IPv4 or IPv6 socket address
 {
-  char b[64];
-  inet_ntop(AF_INET, &a.sin_addr, b, sizeof b);
-  return std::string(b) + ":" + std::to_string(ntohs(a.sin_port));
+  sockaddr_storage ss{};
+  socklen_t len = 0;
+  const sockaddr *sa() const { return reinterpret_cast<const sockaddr *>(&ss); }
+  uint16_t port() const { return ss.ss_family == AF_INET6 ? ntohs(reinterpret_cast<const sockaddr_in6 *>(&ss)->sin6_port) : ntohs(reinterpret_cast<const sockaddr_in *>(&ss)->sin_port); }
+};
+static std::string addrStr(const sockaddr_storage &ss)
+{
+  char b[INET6_ADDRSTRLEN + 2] = {0};
+  if (ss.ss_family == AF_INET6)
+  {
+    auto *a = reinterpret_cast<const sockaddr_in6 *>(&ss);
+    inet_ntop(AF_INET6, &a->sin6_addr, b, sizeof b);
+    return std::string(b) + ":" + std::to_string(ntohs(a->sin6_port));
+  }
+  auto *a = reinterpret_cast<const sockaddr_in *>(&ss);
+  inet_ntop(AF_INET, &a->sin_addr, b, sizeof b);
+  return std::string(b) + ":" + std::to_string(ntohs(a->sin_port));
+}
+static std::string addrStr(const SockAddr &a) { return addrStr(a.ss); }
+static SockAddr mkAddr(const std::string &host, uint16_t port)
+{
+  SockAddr r;
+  if (host.find(':') != std::string::npos)
+  {
+    auto *a = reinterpret_cast<sockaddr_in6 *>(&r.ss);
+    a->sin6_family = AF_INET6; a->sin6_port = htons(port); inet_pton(AF_INET6, host.c_str(), &a->sin6_addr);
+    r.len = sizeof(sockaddr_in6);
+  }
+  else
+  {
+    auto *a = reinterpret_cast<sockaddr_in *>(&r.ss);
+    a->sin_family = AF_INET; a->sin_port = htons(port); inet_pton(AF_INET, host.c_str(), &a->sin_addr);
+    r.len = sizeof(sockaddr_in);
+  }
+  return r;
 }
 static std::string addrStr(const TransportAddress &a)
 {
@@ -120,12 +153,12 @@ static const char *errName(TransportError e)
   default: return "Unknown";
   }
 }
-// kernel drop counters of loopback UDP sockets: "127.0.0.1:port" -> drops (last column of /proc/net/udp)
-static bool readUdpDrops(std::map<std::string, uint64_t> &out)
+// kernel drop counters of UDP sockets: "host:port" -> drops (last column of /proc/net/udp and /proc/net/udp6)
+static bool readUdpDropsFrom(const char *path, bool v6, std::map<std::string, uint64_t> &out)
 {
-  FILE *f = fopen("/proc/net/udp", "r");
+  FILE *f = fopen(path, "r");
   if (!f) return false;
-  char line[512];
+  char line[1024];
   bool header = true, sawDrops = false;
   while (fgets(line, sizeof line, f))
   {
@@ -134,13 +167,32 @@ static bool readUdpDrops(std::map<std::string, uint64_t> &out)
     char *save = nullptr;
     for (char *t = strtok_r(line, " \t\n", &save); t; t = strtok_r(nullptr, " \t\n", &save)) tok.push_back(t);
     if (tok.size() < 13) continue;
-    unsigned ip = 0, port = 0;
-    if (sscanf(tok[1].c_str(), "%x:%x", &ip, &port) != 2) continue;
-    sockaddr_in a{}; a.sin_family = AF_INET; a.sin_addr.s_addr = ip; a.sin_port = htons(uint16_t(port));
-    out[addrStr(a)] = strtoull(tok.back().c_str(), nullptr, 10);
+    const std::string &la = tok[1];
+    size_t c = la.find(':');
+    if (c == std::string::npos) continue;
+    unsigned port = unsigned(strtoul(la.c_str() + c + 1, nullptr, 16));
+    sockaddr_storage ss{};
+    if (!v6)
+    {
+      if (c != 8) continue;
+      auto *a = reinterpret_cast<sockaddr_in *>(&ss);
+      a->sin_family = AF_INET; a->sin_addr.s_addr = uint32_t(strtoul(la.substr(0, 8).c_str(), nullptr, 16)); a->sin_port = htons(uint16_t(port));
+    }
+    else
+    {
+      if (c != 32) continue;
+      auto *a = reinterpret_cast<sockaddr_in6 *>(&ss);
+      a->sin6_family = AF_INET6; a->sin6_port = htons(uint16_t(port));
+      for (int w = 0; w < 4; w++) { uint32_t v = uint32_t(strtoul(la.substr(size_t(w) * 8, 8).c_str(), nullptr, 16)); memcpy(&a->sin6_addr.s6_addr[w * 4], &v, 4); }
+    }
+    out[addrStr(ss)] = strtoull(tok.back().c_str(), nullptr, 10);
   }
   fclose(f);
   return sawDrops;
+}
+static bool readUdpDrops(std::map<std::string, uint64_t> &out, bool v6)
+{
+  return readUdpDropsFrom(v6 ? "/proc/net/udp6" : "/proc/net/udp", v6, out);
 }
 
 // ------------------------------------------------------------------------------ world (shared log)
@@ -189,7 +241,7 @@ struct DS // what the driver believes about a session (used only to choose steps
   int peer = -1, lst = -1;
   bool open = true;
   std::string local;
-  sockaddr_in localSa{};
+  SockAddr localSa;
 };
 
 struct Hist
@@ -204,9 +256,9 @@ struct Hist
   std::shared_ptr<Transport> T;
   Transport *Tp = nullptr;
   TransportConfig cfg;
-  struct Lst { ListenerId id; std::string addr; sockaddr_in sa; };
+  struct Lst { ListenerId id; std::string addr; SockAddr sa; };
   std::vector<Lst> L;
-  struct Peer { int fd; sockaddr_in sa; std::string addr; uint32_t ovfl = 0; };
+  struct Peer { int fd; SockAddr sa; std::string addr; uint32_t ovfl = 0; };
   std::vector<Peer> P;
   std::map<uint64_t, DS> S;
   uint64_t nextId = 1, nextOp = 1;
@@ -215,6 +267,8 @@ struct Hist
   bool smallQueue = false, smallSnd = false;
   std::map<std::string, uint64_t> feat; // driver-side feature counters (signature + evidence)
   double waitScale = 1.0;
+  bool v6 = false; // the whole history runs over ::1 instead of 127.0.0.1
+  const char *host() const { return v6 ? "::1" : "127.0.0.1"; }
   int iorasRcvBuf = 4 * 1024 * 1024; // --rcvbuf: only lowered by the self-test of the kernel-drop excuse
   bool deliveryTimedOut = false;
 
@@ -222,6 +276,8 @@ struct Hist
     : seed(s), idx(i), mode(md), isolated(iso), verbose(vb), r(s * 1000003ull + (md == "idle" ? 7777 : 0), i)
   {
     codec.nonce = uint32_t(vf::fnv(md) ^ (s * 2654435761u) ^ (i * 40503u));
+    vf::Rng fam(s ^ 0x66c06, i); // own stream: the address family does not disturb the rest of the history
+    v6 = fam.chance(md == "idle" ? 0.25 : 0.15);
   }
 
   // ---------------------------------------------------------------- setup / teardown
@@ -274,12 +330,12 @@ struct Hist
     int nl = r.chance(0.3) ? 2 : 1;
     for (int i = 0; i < nl; i++)
     {
-      auto lr = T->addListener("127.0.0.1", 0);
+      auto lr = T->addListener(host(), 0);
       if (!lr.isOk()) return false;
       Lst l; l.id = lr.value();
       auto la = T->getListenerAddress(l.id);
       l.addr = addrStr(la);
-      l.sa = sockaddr_in{}; l.sa.sin_family = AF_INET; l.sa.sin_port = htons(la.port); inet_pton(AF_INET, la.host.c_str(), &l.sa.sin_addr);
+      l.sa = mkAddr(la.host, la.port);
       if (la.port == 0) return false;
       L.push_back(l);
       meta.listenerAddrs.insert(l.addr);
@@ -287,14 +343,15 @@ struct Hist
     int np = mode == "idle" ? int(r.range(1, 3)) : int(r.range(2, 8));
     for (int i = 0; i < np; i++)
     {
-      Peer p; p.fd = socket(AF_INET, SOCK_DGRAM | SOCK_CLOEXEC, 0);
+      Peer p; p.fd = socket(v6 ? AF_INET6 : AF_INET, SOCK_DGRAM | SOCK_CLOEXEC, 0);
       if (p.fd < 0) return false;
       int rb = 4 * 1024 * 1024, one = 1;
       setsockopt(p.fd, SOL_SOCKET, SO_RCVBUF, &rb, sizeof rb);
       setsockopt(p.fd, SOL_SOCKET, SO_RXQ_OVFL, &one, sizeof one);
-      sockaddr_in a{}; a.sin_family = AF_INET; a.sin_addr.s_addr = htonl(INADDR_LOOPBACK); a.sin_port = 0;
-      if (bind(p.fd, (sockaddr *)&a, sizeof a) != 0) return false;
-      socklen_t sl = sizeof a; getsockname(p.fd, (sockaddr *)&a, &sl);
+      SockAddr a = mkAddr(host(), 0);
+      if (bind(p.fd, a.sa(), a.len) != 0) return false;
+      socklen_t sl = sizeof a.ss; getsockname(p.fd, reinterpret_cast<sockaddr *>(&a.ss), &sl);
+      a.len = sl;
       p.sa = a; p.addr = addrStr(a);
       P.push_back(p);
     }
@@ -316,7 +373,7 @@ struct Hist
         if (!(pf[i].revents & POLLIN)) continue;
         for (;;)
         {
-          sockaddr_in from{};
+          sockaddr_storage from{};
           iovec iov{buf.data(), buf.size()};
           alignas(cmsghdr) char ctl[64];
           msghdr mh{}; mh.msg_name = &from; mh.msg_namelen = sizeof from; mh.msg_iov = &iov; mh.msg_iovlen = 1; mh.msg_control = ctl; mh.msg_controllen = sizeof ctl;
@@ -369,13 +426,13 @@ struct Hist
     if (n < c06::Codec::HDR && !codec.tinyAvailable(n)) n = uint32_t(16 + r.below(32));
     return n;
   }
-  void psendOne(int p, const sockaddr_in &dst, const std::string &dstStr, int cls, uint64_t targetSid, uint32_t len)
+  void psendOne(int p, const SockAddr &dst, const std::string &dstStr, int cls, uint64_t targetSid, uint32_t len)
   {
     uint64_t id = nextId++;
     std::string pl = codec.make(uint16_t(p + 1), id, len);
     Ev e; e.k = Ev::PSEND; e.id = id; e.peer = p; e.cls = cls; e.sid = targetSid; e.len = len; e.a1 = P[p].addr; e.a2 = dstStr;
     size_t at = W.add(std::move(e));
-    ssize_t rc = sendto(P[p].fd, pl.data(), pl.size(), 0, (const sockaddr *)&dst, sizeof dst);
+    ssize_t rc = sendto(P[p].fd, pl.data(), pl.size(), 0, dst.sa(), dst.len);
     std::lock_guard<std::mutex> g(W.m);
     W.log[at].rc = rc;
   }
@@ -396,9 +453,20 @@ struct Hist
   }
   uint64_t dataCount() { std::lock_guard<std::mutex> g(W.m); return W.nData; }
   uint64_t wireCount() { std::lock_guard<std::mutex> g(W.m); return W.nWire; }
+  // the first undelivered datagram of a history sits out the full watchdog; once something is missing the
+  // event count is off for good, so later waits of the same history are kept short (the offline checker
+  // judges from the complete log, and a loss only counts when an isolated re-run reproduces it)
+  // watchdog only: a wait that runs out makes the history a loss *suspect*, the isolated re-run (30 s) decides
+  double watchdogMs() const { return isolated ? 30000.0 : 12000.0; }
+  void noteDeliveryTimeout()
+  {
+    deliveryTimedOut = true;
+    feat["delivery_wait_timed_out"]++;
+    waitScale = std::min(waitScale, 0.1);
+  }
   void waitData(uint64_t target, const char *label)
   {
-    if (!W.waitFor(30000 * waitScale, [&] { return W.nData >= target; })) { deliveryTimedOut = true; feat["delivery_wait_timed_out"]++; }
+    if (!W.waitFor(watchdogMs() * waitScale, [&] { return W.nData >= target; })) noteDeliveryTimeout();
     mark(std::string("quiesce:") + label);
     absorb();
   }
@@ -495,7 +563,7 @@ struct Hist
   }
   uint64_t waitOpened(uint64_t sid)
   {
-    bool ok = W.waitFor(30000 * waitScale, [&] { return W.cbConnected.count(sid) || W.cbClosed.count(sid); });
+    bool ok = W.waitFor(watchdogMs() * waitScale, [&] { return W.cbConnected.count(sid) || W.cbClosed.count(sid); });
     if (!ok) feat["open_wait_timed_out"]++;
     std::lock_guard<std::mutex> g(W.m);
     return W.cbConnected.count(sid) ? sid : 0;
@@ -506,7 +574,7 @@ struct Hist
     if (l < 0) l = int(r.below(L.size()));
     Ev e; e.k = Ev::OPEN; e.id = nextOp++; e.cls = 2; e.peer = p; e.a1 = P[p].addr; e.a3 = L[l].addr;
     size_t at = W.add(std::move(e));
-    auto cr = T->connectViaListener(L[l].id, "127.0.0.1", ntohs(P[p].sa.sin_port));
+    auto cr = T->connectViaListener(L[l].id, host(), P[p].sa.port());
     uint64_t sid = cr.isOk() ? cr.value() : 0;
     { std::lock_guard<std::mutex> g(W.m); W.log[at].rc = cr.isOk() ? 1 : 0; W.log[at].sid = sid; }
     feat["step_via"]++;
@@ -523,7 +591,7 @@ struct Hist
     if (p < 0) p = int(r.below(P.size()));
     Ev e; e.k = Ev::OPEN; e.id = nextOp++; e.cls = 1; e.peer = p; e.a1 = P[p].addr;
     size_t at = W.add(std::move(e));
-    auto cr = T->connect("127.0.0.1", ntohs(P[p].sa.sin_port));
+    auto cr = T->connect(host(), P[p].sa.port());
     uint64_t sid = cr.isOk() ? cr.value() : 0;
     { std::lock_guard<std::mutex> g(W.m); W.log[at].rc = cr.isOk() ? 1 : 0; W.log[at].sid = sid; }
     feat["step_connect"]++;
@@ -535,11 +603,7 @@ struct Hist
       d.local = W.localOf[sid];
     }
     size_t c = d.local.rfind(':');
-    if (c != std::string::npos)
-    {
-      d.localSa.sin_family = AF_INET; inet_pton(AF_INET, d.local.substr(0, c).c_str(), &d.localSa.sin_addr);
-      d.localSa.sin_port = htons(uint16_t(atoi(d.local.c_str() + c + 1)));
-    }
+    if (c != std::string::npos) d.localSa = mkAddr(d.local.substr(0, c), uint16_t(atoi(d.local.c_str() + c + 1)));
     S[sid] = d;
     mark("quiesce:connect");
     absorb();
@@ -548,7 +612,7 @@ struct Hist
   void noteDropsOf(const std::string &local)
   {
     std::map<std::string, uint64_t> d;
-    if (!readUdpDrops(d)) { meta.dropsReadable = false; return; }
+    if (!readUdpDrops(d, v6)) { meta.dropsReadable = false; return; }
     auto it = d.find(local);
     if (it != d.end()) meta.dropsAtPort[local] = std::max(meta.dropsAtPort[local], it->second);
   }
@@ -577,7 +641,7 @@ struct Hist
     feat[wasOpen ? "step_close" : "step_close_of_closed_or_unknown"]++;
     if (wasOpen)
     {
-      if (!W.waitFor(30000 * waitScale, [&] { return W.cbClosed.count(sid) > 0; })) feat["close_wait_timed_out"]++;
+      if (!W.waitFor(watchdogMs() * waitScale, [&] { return W.cbClosed.count(sid) > 0; })) feat["close_wait_timed_out"]++;
     }
     else vf::sleepMs(2);
     mark("quiesce:close");
@@ -622,7 +686,7 @@ struct Hist
     while (mi < mine.size()) fire(mine[mi++]);
     helper.join();
     feat["step_burst_both_ways"]++;
-    if (!W.waitFor(30000 * waitScale, [&] { return W.nData >= dBefore + uint64_t(np); })) { deliveryTimedOut = true; feat["delivery_wait_timed_out"]++; }
+    if (!W.waitFor(watchdogMs() * waitScale, [&] { return W.nData >= dBefore + uint64_t(np); })) noteDeliveryTimeout();
     waitWire(wBefore + mine.size() + theirs.size(), smallQueue ? 300 : 5000, "burst");
     c06::eg().disarm();
   }
@@ -779,12 +843,12 @@ struct Hist
       vf::sleepMs(5);
     }
     std::map<std::string, uint64_t> d;
-    if (!readUdpDrops(d)) meta.dropsReadable = false;
-    for (auto &l : L) { auto it = d.find(l.addr); if (it != d.end()) meta.dropsAtPort[l.addr] = std::max(meta.dropsAtPort[l.addr], it->second); else meta.dropsReadable = false; }
+    if (!readUdpDrops(d, v6)) meta.dropsReadable = false;
+    for (auto &l : L) { auto it = d.find(l.addr); if (it != d.end()) { meta.dropsAtPort[l.addr] = std::max(meta.dropsAtPort[l.addr], it->second); feat["kernel_drop_counters_read"]++; } else meta.dropsReadable = false; }
+    if (!meta.dropsReadable) feat["kernel_drop_counters_unreadable"]++;
     for (auto &kv : S) if (kv.second.kind == 'C' && kv.second.open) { auto it = d.find(kv.second.local); if (it != d.end()) meta.dropsAtPort[kv.second.local] = std::max(meta.dropsAtPort[kv.second.local], it->second); }
     uint64_t rawDrops = 0;
     for (auto &p : P) { auto it = d.find(p.addr); rawDrops += std::max<uint64_t>(p.ovfl, it != d.end() ? it->second : 0); }
-    feat["kernel_drop_counters_read"] += L.size();
     if (rawDrops) feat["raw_peer_kernel_drops"] += rawDrops;
     mark("stop");
     T->stop();
@@ -797,8 +861,8 @@ struct Hist
   std::string cfgJson() const
   {
     char b[400];
-    snprintf(b, sizeof b, "{\"mode\":%s,\"seed\":%llu,\"index\":%llu,\"listeners\":%zu,\"peers\":%zu,\"edgeTriggered\":%d,\"batching\":%d,\"soSndBuf\":%d,\"maxWriteQueue\":%zu,\"closeOnBackpressure\":%d,\"ioReadChunk\":%zu}",
-             vf::jstr(mode).c_str(), (unsigned long long)seed, (unsigned long long)idx, L.size(), P.size(), int(cfg.useEdgeTriggered), int(cfg.batching.enabled), cfg.soSndBuf,
+    snprintf(b, sizeof b, "{\"mode\":%s,\"seed\":%llu,\"index\":%llu,\"ipv6\":%d,\"listeners\":%zu,\"peers\":%zu,\"edgeTriggered\":%d,\"batching\":%d,\"soSndBuf\":%d,\"maxWriteQueue\":%zu,\"closeOnBackpressure\":%d,\"ioReadChunk\":%zu}",
+             vf::jstr(mode).c_str(), (unsigned long long)seed, (unsigned long long)idx, int(v6), L.size(), P.size(), int(cfg.useEdgeTriggered), int(cfg.batching.enabled), cfg.soSndBuf,
              cfg.maxWriteQueue, int(cfg.closeOnBackpressure), cfg.ioReadChunk);
     return b;
   }
@@ -835,6 +899,7 @@ struct Hist
     for (auto &kv : feat) O.obs(kv.first, kv.second);
     O.obs("events_logged", W.log.size());
     if (L.size() == 2) O.obs("histories_two_listeners");
+    O.obs(v6 ? "histories_ipv6" : "histories_ipv4");
     if (cfg.batching.enabled) O.obs("histories_batched_loop");
     if (!cfg.useEdgeTriggered) O.obs("histories_level_triggered");
     if (smallSnd) O.obs("histories_small_sndbuf");
@@ -842,7 +907,7 @@ struct Hist
     auto has = [&](const char *k) { auto it = R.obs.find(k); return it != R.obs.end() && it->second > 0; };
     uint64_t sig = vf::fnv(mode);
     auto mixin = [&](uint64_t v) { sig = (sig ^ v) * 1099511628211ull; };
-    mixin(L.size()); mixin(P.size() > 4); mixin(cfg.useEdgeTriggered); mixin(cfg.batching.enabled); mixin(smallSnd); mixin(smallQueue); mixin(cfg.ioReadChunk == 65507);
+    mixin(L.size()); mixin(v6); mixin(P.size() > 4); mixin(cfg.useEdgeTriggered); mixin(cfg.batching.enabled); mixin(smallSnd); mixin(smallQueue); mixin(cfg.ioReadChunk == 65507);
     mixin(has("via_to_peer_with_open_receiving_session")); mixin(has("close_of_other_session_while_receiving_session_open"));
     mixin(has("probes_after_close_of_other_session")); mixin(has("delivered_ge_60000")); mixin(has("wire_ge_60000")); mixin(has("delivered_lt_16"));
     mixin(has("closes_idle_expiry")); mixin(has("closes_on_error")); mixin(has("connects")); mixin(has("delivered_on_session_of_another_listener"));
